@@ -125,6 +125,28 @@ CHECKS = {
              "Unclassifiable sites (computed callee, external without a row) are weak obligations: violation only if replay/inert_diff.py (audit hook, "
              "sentinel globals, 9 entry points, ~760 inputs; bounded) shows the effect, else undecided (exit 2).",
         ref="§C01", tech=TECH_EFFECTS),
+    "C11": dict(
+        text="Proof by frames: FicklingMLUnpickler.__init__ is verified to write only its own instance and objects it allocated — the per-module "
+             "tables it adds the user's entries to are shown to be its own copies (comprehension model: one new dict per key; loop invariant "
+             "'every table of self.allowlist was allocated by this call') — so ML_ALLOWLIST and its tables, which the static MLAllowlist analysis "
+             "reads, are never written, for any additions; find_class and the closures write nothing; each installed closure is verified to build "
+             "one unpickler per call from the additions captured by that activation; activation / deactivation write only the four pickle "
+             "bindings (C12); a scan shows ml.py / hook.py hold no other module- or class-level state. Hence what a load permits at any moment "
+             "depends only on the import-time ML_ALLOWLIST and the additions of the closure in force, for histories of any length.",
+        note="Not proved: that the permitted set is exactly built-in + additions (functional meaning of the also_allow loop) — bounded companion "
+             "replay/allow_diff.py (sequences <= 8 operations). Trusted: pickle.Unpickler.__init__/load C code; the closure captures the caller's "
+             "list object (later in-place edits by the caller change the additions in force).",
+        ref="§C11"),
+    "C07": dict(
+        text="Proof for fickling's own code: find_class is verified to reach the stock resolution only on paths whose condition entails 'module "
+             "in the unpickler's allowlist and name in that module's table', to resolve exactly the requested global, and to raise the "
+             "unsafe-file error before anything is resolved otherwise; each of the four hooked names is verified to dispatch to a closure that "
+             "builds a FicklingMLUnpickler with the activation's additions and runs its load — never the stock loaders.",
+        note="Nested unpicklings are mediated only if the allow-listed callable unpickles through the four rebound names at call time; that is a "
+             "fact about third-party code no contract on /repo can establish: bounded companion replay/nested_diff.py (depth 0..3, bare / legacy / "
+             "zip payloads, pickle.loads and torch.storage._load_from_bytes). Known finding: PyTorch containers nested through "
+             "torch.storage._load_from_bytes are not mediated. Trusted: CPython's Unpickler.load resolves every global through self.find_class.",
+        ref="§C07"),
 }
 NA_REASON = "check not built yet (work in progress; see DESIGN.md)"
 
